@@ -259,6 +259,18 @@ def process_reorder(ck, rng, n_dim, dim, which):
         ck.fail({"entry": "GlobalHierarchicalModel." + which, "predicate": pred}, case, detail)
     if not bad and (mrow is None or not np.array_equal(mrow, row)):
         ck.diverge("nquad-plan", case, f"row reaching pdf {row.tolist()} model {None if mrow is None else mrow.tolist()}")
+    # model: the ranges themselves (cdfRanges / marginalCdfRanges / marginalPdfRanges of Model/Joint.lean)
+    if which == "cdf":
+        rline = ["RUN", "ranges", "cdf"] + fl(xrow)
+    elif which == "marginal_cdf":
+        rline = ["RUN", "ranges", "mcdf", str(n_dim), str(f2b(xq))]
+    else:
+        rline = ["RUN", "ranges", "mpdf", str(n_dim)]
+    rans = ck.driver.run([" ".join(rline)])[0].split()
+    mranges = [(0.0, np.inf if t == "inf" else b2f(t)) for t in rans[2:]] if rans[0] == "OK" else None
+    got_ranges = [(float(lo), float(hi)) for lo, hi in call["ranges"]]
+    if not bad and mranges != got_ranges:
+        ck.diverge("nquad-ranges", case, f"ranges handed to nquad {got_ranges} model {mranges}")
 
 
 # --------------------------------------------------------------------------- (C) runtime-only clauses
